@@ -360,28 +360,29 @@ impl Space for Long {
 /// The same through ElfBytes: a SHT_NOTE section (sh_addralign) and a PT_NOTE segment (p_align).
 pub struct ThroughFile;
 impl ThroughFile {
-    fn dims() -> [u64; 4] {
-        // align (incl. 0), enc, namesz, descsz
-        [9, 4, 9, 9]
+    fn dims() -> [u64; 5] {
+        // align (incl. 0), enc, namesz, descsz, (name family, type) of the first note
+        [9, 4, 9, 9, 6]
     }
 }
 impl Space for ThroughFile {
     fn name(&self) -> String {
-        "ElfBytes::section_data_as_notes (sh_addralign) and segment_data_as_notes (p_align) on generated files: align in {0,1,2,4,8,16,3,5,12} x 4 encodings x note1 (namesz, descsz in 0..=8) followed by a build-id note".into()
+        "ElfBytes::section_data_as_notes (sh_addralign) and segment_data_as_notes (p_align) on generated files: align in {0,1,2,4,8,16,3,5,12} x 4 encodings x note1 (namesz, descsz in 0..=8; name family {XY.., GNU + NULs} x type {7, 1, 3}) followed by a build-id and an ABI-tag note".into()
     }
     fn size(&self) -> u64 {
         product(&Self::dims())
     }
     fn describe(&self, idx: u64) -> Value {
         let d = unmix(idx, &Self::dims());
-        json!({"align": if d[0] == 0 { 0 } else { ALIGNS[d[0] as usize - 1] }, "encoding": ENCS[d[1] as usize].name(), "namesz": d[2], "descsz": d[3]})
+        let ty = [7, 1, 3][(d[4] % 3) as usize];
+        json!({"align": if d[0] == 0 { 0 } else { ALIGNS[d[0] as usize - 1] }, "encoding": ENCS[d[1] as usize].name(), "namesz": d[2], "descsz": d[3], "name_family": if d[4] / 3 == 0 { "XY.." } else { "GNU + NULs" }, "type": ty})
     }
     fn run(&self, idx: u64, out: &mut Outcome) {
         let d = unmix(idx, &Self::dims());
         let align = if d[0] == 0 { 0 } else { ALIGNS[d[0] as usize - 1] };
         let enc = ENCS[d[1] as usize];
         let notes = vec![
-            NoteSpec { n_type: 7, name: name_bytes(1, d[2] as usize), desc: desc_bytes(d[3] as usize, 3) },
+            NoteSpec { n_type: [7, 1, 3][(d[4] % 3) as usize], name: name_bytes(if d[4] / 3 == 0 { 1 } else { 0 }, d[2] as usize), desc: desc_bytes(d[3] as usize, 3) },
             NoteSpec { n_type: 3, name: b"GNU\0".to_vec(), desc: desc_bytes(5, 9) },
             NoteSpec { n_type: 1, name: b"GNU\0".to_vec(), desc: desc_bytes(16, 1) },
         ];
